@@ -93,6 +93,7 @@ struct World<'a> {
     inflight: Vec<InFlight>,
     chain: HashMap<QuoteHash, bool>,
     rpc_fail: HashSet<QuoteHash>,
+    slow_quotes: HashSet<QuoteHash>,
     holder_data: HashMap<(PeerId, Vec<u8>), Vec<u8>>,
     delivered: usize,
     /// highest scratchpad counter ever observed stored, per key
@@ -157,6 +158,7 @@ impl<'a> World<'a> {
             inflight: vec![],
             chain: HashMap::new(),
             rpc_fail: HashSet::new(),
+            slow_quotes: HashSet::new(),
             holder_data: HashMap::new(),
             delivered: 0,
             pad_high: BTreeMap::new(),
@@ -165,25 +167,31 @@ impl<'a> World<'a> {
 
     fn setup_peers(&mut self) {
         let me = self.host.peer.to_bytes();
+        let mut inserted = vec![];
         for i in 0..self.plan.n_peers {
             let kp = data::ed_key(self.plan.seed, 1 + i as u64);
             let pid = kp.public().to_peer_id();
-            self.host.driver.verif_add_peer(pid, peer_addr(i, &pid));
+            // the routing table may refuse a peer (full bucket): only inserted peers are known to the node
+            if self.host.driver.verif_add_peer(pid, peer_addr(i, &pid)) {
+                inserted.push(i);
+            } else {
+                self.rep.probe("peer_refused_by_routing_table");
+            }
             self.peers.push((kp, pid));
         }
-        // independent view of who is among the K closest (self + 19 nearest routing-table peers)
-        let mut order: Vec<usize> = (0..self.peers.len()).collect();
+        // independent view of who is among the K closest: self + the 19 routing-table peers nearest by the
+        // harness's own XOR distance. The code's own answer is only compared with it, never used to classify.
+        let mut order: Vec<usize> = inserted.clone();
         order.sort_by_key(|i| data::xor_distance(&me, &self.peers[*i].1.to_bytes()));
         let real_close: HashSet<PeerId> = self.host.driver.verif_closest_k_local_peers().into_iter().collect();
         for (rank, i) in order.iter().enumerate() {
             let is_close = rank < 19;
             if is_close != real_close.contains(&self.peers[*i].1) {
-                // the routing table may refuse peers (full bucket); classify by what the node really knows
                 self.rep.probe("closeness_model_differs_from_routing_table");
             }
-            if real_close.contains(&self.peers[*i].1) && is_close {
+            if is_close {
                 self.close.push(*i);
-            } else if !real_close.contains(&self.peers[*i].1) && !is_close {
+            } else {
                 self.far.push(*i);
             }
         }
@@ -200,7 +208,7 @@ impl<'a> World<'a> {
     fn reg_base(&self, who: u8) -> SignedRegister {
         let owner = &self.reg_owners[who as usize % 2];
         let writers = if who % 2 == 1 { vec![self.writer.public_key()] } else { vec![] };
-        data::base_register(owner, Self::reg_meta(who % 2), &writers, false)
+        data::base_register(owner, Self::reg_meta(who % 2), &writers, self.plan.open_registers)
     }
 
     fn true_key(&self, d: &Delivery) -> Vec<u8> {
@@ -317,6 +325,9 @@ impl<'a> World<'a> {
                 self.chain.insert(q.hash(), p.chain[i] == 0);
                 if p.rpc_error {
                     self.rpc_fail.insert(q.hash());
+                }
+                if p.slow {
+                    self.slow_quotes.insert(q.hash());
                 }
             }
             quotes.push((claimed, q));
@@ -439,8 +450,11 @@ impl<'a> World<'a> {
             }
             _ => {
                 let base = self.reg_base(d.who);
-                let listed_writer_ok = d.who % 2 == 1;
+                // an open register admits every signer (and checks no signature); a foreign-address op never fits
+                let open = self.plan.open_registers;
+                let listed_writer_ok = d.who % 2 == 1 || open;
                 let mut all_permitted = true;
+                let foreign_base = data::base_register(&self.reg_owners[d.who as usize % 2], [0x66u8; 32], &[], open);
                 let ops: Vec<RegisterOp> = d
                     .items
                     .iter()
@@ -453,14 +467,23 @@ impl<'a> World<'a> {
                                 }
                                 self.writer.clone()
                             }
+                            5 => {
+                                // validly signed by the owner, but written for another register of the same owner
+                                all_permitted = false;
+                                return data::register_op(&foreign_base, *id, &self.reg_owners[d.who as usize % 2]);
+                            }
                             3 | 4 => {
                                 // an op that names a permitted source but carries the stranger's signature
-                                all_permitted = false;
+                                if !open {
+                                    all_permitted = false;
+                                }
                                 let named = if *signer == 3 { self.reg_owners[d.who as usize % 2].clone() } else { self.writer.clone() };
                                 return data::forged_register_op(&base, *id, &named, &self.stranger);
                             }
                             _ => {
-                                all_permitted = false;
+                                if !open {
+                                    all_permitted = false;
+                                }
                                 self.stranger.clone()
                             }
                         };
@@ -679,7 +702,19 @@ impl<'a> World<'a> {
             nhooks::gate_open(g.id);
         } else if idx < gates.len() + led.len() {
             let r = led[idx - gates.len()].clone();
-            self.serve_ledger(&r);
+            if r.payments.iter().any(|(h, _)| self.slow_quotes.contains(h)) {
+                // a slow RPC endpoint: the answer arrives 15 simulated seconds after the question
+                self.rep.fault("ledger_reply_delayed_15s");
+                self.rep.log(format!("  ledger: request #{} answered after 15 s", r.id));
+                simkit::rt::advance(Duration::from_secs(15)).await;
+                self.rep.sim_time_ms += 15_000;
+                self.drain().await;
+            }
+            if ledger::ledger_pending().iter().any(|p| p.id == r.id) {
+                self.serve_ledger(&r);
+            } else {
+                self.rep.probe("ledger_request_abandoned_by_the_node");
+            }
         } else {
             self.serve_outbound(idx - gates.len() - led.len());
         }
